@@ -1,6 +1,7 @@
 package consul
 
 import (
+	"bytes"
 	"fmt"
 	"log"
 	"net"
@@ -9,6 +10,7 @@ import (
 	"strconv"
 	"strings"
 
+	"github.com/fabiolb/fabio/route"
 	"github.com/hashicorp/consul/api"
 )
 
@@ -100,10 +102,57 @@ func (r routecmd) build() []string {
 				cfg += " opts " + strconv.Quote(strings.Join(ropts, " "))
 			}
 
+			// A registration which cannot be expressed as a route command
+			// (e.g. a tag with a quote or an invalid weight) is dropped on
+			// its own. Otherwise it would make the configuration of all
+			// other services fail.
+			if err := checkRouteCmd(cfg, name, svctags, ropts); err != nil {
+				log.Printf("[WARN] consul: Skipping route for service %q with tag %q: %s", name, tag, err)
+				continue
+			}
+
 			config = append(config, cfg)
 		}
 	}
 	return config
+}
+
+// checkRouteCmd verifies that the generated route command is accepted by the
+// route command parser and that it denotes the service, tags and options it
+// was generated from.
+func checkRouteCmd(cfg, name string, tags, opts []string) error {
+	defs, err := route.Parse(bytes.NewBufferString(cfg))
+	if err != nil {
+		return err
+	}
+	if len(defs) != 1 {
+		return fmt.Errorf("expected one route command but got %d", len(defs))
+	}
+	d := defs[0]
+	if d.Service != name {
+		return fmt.Errorf("service name %q cannot be expressed in a route command", name)
+	}
+	if strings.Join(d.Tags, ",") != strings.Join(tags, ",") {
+		return fmt.Errorf("tags %q cannot be expressed in a route command", tags)
+	}
+	want := map[string]string{}
+	for _, o := range opts {
+		p := strings.SplitN(o, "=", 2)
+		if len(p) == 1 {
+			want[o] = ""
+		} else {
+			want[p[0]] = p[1]
+		}
+	}
+	if len(want) != len(d.Opts) {
+		return fmt.Errorf("options %q cannot be expressed in a route command", opts)
+	}
+	for k, v := range want {
+		if dv, ok := d.Opts[k]; !ok || dv != v {
+			return fmt.Errorf("options %q cannot be expressed in a route command", opts)
+		}
+	}
+	return d.Validate()
 }
 
 // parseURLPrefixTag expects an input in the form of 'tag-host/path[ opts]'
